@@ -76,10 +76,17 @@ func (tdaw *TrackableDataTrie) SaveKeyValue(key []byte, value []byte) error {
 	}
 
 	if lenValue != 0 {
-		identifier = append(key, tdaw.identifier...)
+		identifier = make([]byte, 0, len(key)+len(tdaw.identifier))
+		identifier = append(identifier, key...)
+		identifier = append(identifier, tdaw.identifier...)
 	}
 
-	tdaw.dirtyData[string(key)] = append(value, identifier...)
+	// the stored entry must not share its backing array with the caller's key or value buffers
+	valueWithIdentifier := make([]byte, 0, len(value)+len(identifier))
+	valueWithIdentifier = append(valueWithIdentifier, value...)
+	valueWithIdentifier = append(valueWithIdentifier, identifier...)
+
+	tdaw.dirtyData[string(key)] = valueWithIdentifier
 	return nil
 }
 
